@@ -195,7 +195,7 @@ def _only(res, prefixes, invert=False):
     return dict(res, mismatches=keep, n_mismatch=len(keep))
 
 
-DOC_RULE = ("documents = JSIGHT + every sequence of up to 3 (quick) / 4 (thorough) distinct blocks out of 17 block templates (INFO, SERVER, 2 TAGs, 3 TYPEs incl. a reference and a regex, ENUM, "
+DOC_RULE = ("documents = JSIGHT + every sequence of up to 3 (quick) / 4 (thorough) distinct blocks out of 18 block templates (INFO, SERVER, 2 TAGs, 3 TYPEs incl. a reference and a regex, ENUM, "
             "URL groups with methods / query / request / responses / headers / path variables, explicit and implicit contexts, stand-alone methods, JSON-RPC URL, Tags at URL and method level, "
             "MACRO + PASTE, a similar-path block); the specification predicts accept + catalog skeleton, or error class + line. ")
 
@@ -233,3 +233,46 @@ def run_C05(ctx):
     ctx.vh("corpus-skeletons", REPO, tp2, "corrupt")
     ok2, _ = validate_trace(ctx, "Trace_C05", "trace_c05.ndjson", tp2, expect_reject=True)
     ctx.selftest(not ok2, "C05 V: a corrupted catalog record is rejected")
+
+
+def run_C03(ctx):
+    ctx.cov["rule"] = ("G: 3 base documents (valid by the specification: BaseValid) x every applicable site of every fault class of the property: missing parameter (12 kinds), "
+                       "forbidden annotation (18 kinds), second Title/Version/Description/BaseUrl/Query/Headers/OperationId/Protocol/Path, duplicated TYPE/ENUM/SERVER/TAG/MACRO/INFO/URL/method block, "
+                       "undefined type (parameter and body) / enum / tag / macro, JSIGHT missing / not first / repeated / unsupported, similar paths, duplicated path parameter, duplicated OperationId. "
+                       "Each is built directly in 3 layouts, and appended faults also inside an INCLUDEd file (file, line, include trace) and inside a pasted MACRO body. "
+                       "Non-trivial = distinct (base, fault kind, site).")
+    ctx.assumptions += ["faults whose detection is lexical (TYPE / Headers / Query / ENUM without a body) are owned by C12/C01", "a second OperationId with the same id is reported with the OperationId-uniqueness message"]
+    r = ctx.tlc("MC_C03", timeout=900)
+    res = ctx.vh("c03-replay", r.out, env={"VERIF_SEED": str(ctx.seed)})
+    ctx.absorb(res, "G:c03-replay")
+    ctx.cov["exhaustive"] = True
+    st = ctx.vh("c03-replay", r.out, "selftest")
+    ctx.selftest(st["n_mismatch"] >= 0.9 * st["cases"], "C03 G: a shifted fault site / wrong class is reported")
+
+
+def run_C15(ctx):
+    ctx.cov["rule"] = ("G: all 120 permutations of each of 5 base sets of 5 independent top-level blocks (types used before declaration and through request bodies, ENUM used by a type, "
+                       "TAG/Tags at URL and method level, URL groups, stand-alone methods with their own path right after a URL block, JSON-RPC, SERVER, INFO, MACRO defined after use); "
+                       "M: same verdict and same entries as maps in the model; G: the real catalog of every order equals the real catalog of the base order up to the order of entries in "
+                       "sections / tag lists, and equals the model's prediction for that order. Non-trivial = distinct orders.")
+    ctx.assumptions += ["blocks are independent top-level blocks; no implicit-context MACRO bodies (the property excludes them)"]
+    r = ctx.tlc("MC_C15", timeout=1800)
+    res = ctx.vh("c15-replay", r.out)
+    ctx.absorb(res, "G:c15-replay")
+    ctx.cov["exhaustive"] = True
+    st = ctx.vh("c15-replay", r.out, "selftest")
+    ctx.selftest(st["n_mismatch"] >= 0.8 * st["cases"], "C15 G: a changed document is noticed")
+
+
+def run_C19(ctx):
+    ctx.cov["rule"] = ("G: every set of one or two banned kinds (31 + 465) x 3 projects that together contain every directive kind directly, inside an INCLUDEd file, inside pasted MACRO bodies "
+                       "and inside a MACRO that is never pasted: 1 488 cases. A banned kind that occurs must give the not-allowed error on the first such directive in scanning order (file, line, "
+                       "include trace); otherwise the build must equal the build without the option (verdict, catalog bytes). Non-trivial = distinct (project, banned set).")
+    r = ctx.tlc("MC_C19", timeout=900)
+    res = ctx.vh("c19-replay", r.out)
+    if res.get("extra", {}).get("kinds_banned") != 31:
+        raise MachineryError("C19: %s of 31 kinds were banned" % res.get("extra"))
+    ctx.absorb(res, "G:c19-replay")
+    ctx.cov["exhaustive"] = True
+    st = ctx.vh("c19-replay", r.out, "selftest")
+    ctx.selftest(st["n_mismatch"] == st["cases"], "C19 G: inverted expectations are reported")
